@@ -1,6 +1,7 @@
 package core
 
 import (
+	"math/big"
 	"bytes"
 	"encoding/json"
 	"fmt"
@@ -101,6 +102,11 @@ func parseJValue(dec *json.Decoder) (J, error) {
 		lex := t.String()
 		out := J{"t": "num", "s": lex, "i": "", "f": "", "g": "", "i32": false}
 		if n, err := strconv.ParseInt(lex, 10, 64); err == nil {
+			out["i"] = "i:" + strconv.FormatInt(n, 10)
+			out["i32"] = n >= math.MinInt32 && n <= math.MaxInt32
+		} else if r, ok := new(big.Rat).SetString(lex); ok && r.IsInt() && r.Num().IsInt64() {
+			// an integer written in float notation (5.0, 1e3): the same integer
+			n := r.Num().Int64()
 			out["i"] = "i:" + strconv.FormatInt(n, 10)
 			out["i32"] = n >= math.MinInt32 && n <= math.MaxInt32
 		}
